@@ -37,6 +37,9 @@ def canon_event(read):
     # "no component trigger table" and "no component triggered" coincide at the event level
     if not out.get("components"):
         out["components"] = []
+    # the order in which component names are listed follows the column order of the
+    # table, which is not part of the event's data
+    out["components"] = sorted(out["components"])
     if not any(out.get("component_rows") or []):
         out["component_rows"] = []
     return out
